@@ -10,9 +10,9 @@ export CARGO_TARGET_DIR=$TGT CARGO_NET_OFFLINE=true
 git apply $OUT/patch.diff || { echo "RESULT $NAME patch-does-not-apply"; exit 3; }
 SUITE=$(cargo test --workspace --no-fail-fast --offline 2>&1 | grep -E "^test result" | head -1)
 git apply $OUT/demo.diff || { echo "RESULT $NAME demo-does-not-apply"; }
-DEMOFILE=$(git status --short | grep tests/ | awk '{print $2}' | head -1)
+DEMOFILE=$(grep -E '^\+\+\+ b/' $OUT/demo.diff | head -1 | sed 's#+++ b/##')
 T=$(basename $DEMOFILE .rs)
-WITH=$(cargo test --offline -p memcrs --test $T 2>&1 | grep -E "^test result" | head -1)
+WITH=$(cargo test --offline -p memcrs --test $T 2>&1 | grep -E "^test result|error\[" | head -1)
 git apply -R $OUT/patch.diff
 WITHOUT=$(cargo test --offline -p memcrs --test $T 2>&1 | grep -E "^test result" | head -1)
 echo "RESULT $NAME | suite-with-patch: $SUITE | demo-with-patch: $WITH | demo-without-patch: $WITHOUT"
